@@ -16,7 +16,7 @@ NTA = ops.NodeTypeWithAttrs
 Transform = adapters.Transform
 Slice = adapters.Slice
 Fragment = adapters.Fragment
-ZOO = ("basic", "list", "strict_hb", "title", "fixed", "struct", "iso", "table")
+ZOO = ("basic", "list", "strict_hb", "title", "fixed", "struct", "iso", "table", "grid")
 
 
 def describe():
@@ -46,6 +46,7 @@ def units(tier, seed):
         {"sid": "iso", "family": "iso", "size": 8 if q else 10, "donor": ("iso", 7), "max_slices": 30 if q else 100},
         {"sid": "table", "family": "table", "size": 12 if q else 18, "donor": ("table", 12), "max_slices": 30 if q else 100},
         {"sid": "basic", "family": "inline_s", "size": 5 if q else 6, "donor": ("inline_s", 4), "max_slices": 30 if q else 100},
+        {"sid": "grid", "family": "table", "size": 12 if q else 16, "donor": ("table", 10), "max_slices": 20 if q else 60},
     ]
     extra = [
         {"sid": "strict_hb", "family": "strict", "size": 10 if q else 12, "donor": ("strict", 9), "max_slices": 30 if q else 100},
